@@ -18,6 +18,7 @@ class MPBFloatFormat___init__(Contract):
     returns = 'None'
     properties = ['C01']
     split = ['neg_maxval']
+    options = {'noax_first_ms': 4000, 'light_theory': True}
 
     def post(self, pmax, emin, pos_maxval, neg_maxval, enable_nan, enable_inf, result):
         nm = self.neg_maxval
@@ -54,7 +55,7 @@ class MPBFloatContext___init__(Contract):
     properties = ['C01']
     binds = {'self.nan_value': 'nan_value', 'self.inf_value': 'inf_value', 'self.rng': 'rng'}
     split = ['neg_maxval', 'nan_value', 'inf_value']
-    options = {'symbolic_tier': 'thorough'}     # substitutes: minutes per case
+    options = {'noax_first_ms': 4000, 'light_theory': True}
 
     def post(self, pmax, emin, maxval, rm, overflow, num_randbits, neg_maxval, rng, enable_nan, enable_inf,
              nan_value, inf_value, result):
@@ -107,6 +108,7 @@ class MPBFloatContext___init___plain(Contract):
     binds = {'self.nan_value': 'nan_value', 'self.inf_value': 'inf_value', 'self.rng': 'rng'}
     split = ['neg_maxval']
     inline = True      # the variant without substitutes (quick tier)
+    options = {'noax_first_ms': 4000, 'light_theory': True}
 
     def post(self, pmax, emin, maxval, rm, overflow, num_randbits, neg_maxval, rng, enable_nan, enable_inf,
              nan_value, inf_value, result):
@@ -155,6 +157,7 @@ class MPBFixedFormat___init__(Contract):
     returns = 'None'
     properties = ['C01']
     split = ['neg_maxval']
+    options = {'noax_first_ms': 4000, 'light_theory': True}
 
     def post(self, nmin, pos_maxval, neg_maxval, enable_nan, enable_inf, enable_neg_zero, result):
         pm = self.pos_maxval
@@ -191,7 +194,7 @@ class MPBFixedContext___init__(Contract):
     properties = ['C01']
     binds = {'self.nan_value': 'nan_value', 'self.inf_value': 'inf_value', 'self.rng': 'rng'}
     split = ['neg_maxval', 'nan_value', 'inf_value']
-    options = {'symbolic_tier': 'thorough'}     # substitutes: minutes per case
+    options = {'noax_first_ms': 4000, 'light_theory': True}
 
     def post(self, nmin, maxval, rm, overflow, num_randbits, neg_maxval, rng, enable_nan, enable_inf, enable_neg_zero,
              nan_value, inf_value, result):
@@ -241,6 +244,7 @@ class MPBFixedContext___init___plain(Contract):
     binds = {'self.nan_value': 'nan_value', 'self.inf_value': 'inf_value', 'self.rng': 'rng'}
     split = ['neg_maxval']
     inline = True      # the variant without substitutes (quick tier)
+    options = {'noax_first_ms': 4000, 'light_theory': True}
 
     def post(self, nmin, maxval, rm, overflow, num_randbits, neg_maxval, rng, enable_nan, enable_inf, enable_neg_zero,
              nan_value, inf_value, result):
@@ -286,6 +290,7 @@ class ExpContext___init__(Contract):
     returns = 'None'
     properties = ['C01']
     split = ['inf_value']
+    options = {'noax_first_ms': 4000}
 
     def post(self, nbits, eoffset, rm, overflow, inf_value, result):
         emax = pow2(nbits - 1) - 1 + eoffset
